@@ -62,7 +62,7 @@ func drawC08(rt *rapid.T, tier string) C08Scenario {
 	if tier == "thorough" {
 		maxSteps = 6
 	}
-	return C08Scenario{
+	sc := C08Scenario{
 		PoolSeed: rapid.Uint64Range(0, 1<<40).Draw(rt, "pool_seed"),
 		Records:  rapid.SampledFrom([]int{5, 30, 100, 300}).Draw(rt, "records"),
 		Nets:     rapid.SampledFrom([]int{0, 5, 30, 120}).Draw(rt, "nets"),
@@ -70,6 +70,21 @@ func drawC08(rt *rapid.T, tier string) C08Scenario {
 		Select0:  rapid.Uint64().Draw(rt, "select0"),
 		Steps:    rapid.SliceOfN(step, 1, maxSteps).Draw(rt, "steps"),
 	}
+	// a share of big diffs (well over 8192 operations) whose undeliverable line, if any, comes
+	// late: all-or-nothing must hold for a diff of any size, not only for one that fits one batch
+	bigShare := 25
+	if tier == "thorough" {
+		bigShare = 12
+	}
+	if rapid.IntRange(0, bigShare-1).Draw(rt, "big") == 0 {
+		sc.Records = 26000 + rapid.IntRange(0, 6000).Draw(rt, "big_records")
+		sc.Nets = 400
+		sc.Steps = sc.Steps[:1]
+		sc.Steps[0].ReadErrAt, sc.Steps[0].FailCall, sc.Steps[0].ReadSizes = -1, -1, nil
+		sc.Steps[0].Undeliver = rapid.SampledFrom([]string{"absent-value", "absent-key", "malformed", "bad-op", ""}).Draw(rt, "big_undeliver")
+		sc.Steps[0].Position = rapid.IntRange(850, 1000).Draw(rt, "big_position")
+	}
+	return sc
 }
 
 func summaryC08(sc C08Scenario) interface{} {
@@ -184,6 +199,9 @@ func runC08(t *testing.T, sc C08Scenario, keep bool) *core.Result {
 		}
 		diff := lineDiff(prev, next)
 		shuffle(diff, st.Order)
+		if len(diff) > 8192 {
+			res.Probe("diff_larger_than_8192_lines")
+		}
 		for _, l := range diff {
 			if strings.HasPrefix(l, "-!") || strings.HasPrefix(l, "+!") {
 				res.Probe("range_point_churn")
